@@ -1442,8 +1442,8 @@ func TestCheck(t *testing.T) {
 			"thorough: proj ∈ {v; count,sum,mean,min,max,first,last (v); v,w} × time ∈ {[0m,120m), [15m,80m], (20m,70m), none (for GROUP BY time statements: [-30m,150m)), [60m,120m), [25m,35m)} × tag ∈ {none, h='a', h!='a'} × field ∈ {none, v>1} × gb ∈ {none, time(20m), time(30m,10m), h, time(20m)+h} × fill ∈ {absent,null,none,0,previous,linear} (only with an aggregate and GROUP BY time; raw projections with GROUP BY time are enumerated once and must be rejected) × order ∈ {asc,desc} × limit ∈ {none, 1, (1,1), (2,1)} × slimit ∈ {none, 1, (1,1)} = 129 600 statements × 5 datasets D0–D4 (D0 two dense float series with identical time stamps, cache; D1 integer v with gaps/off-grid times/a w-only point, TSM; D2 three float series: h=a only in shard 1, h=b only in shard 2, h=c in both, TSM+cache; D3 integer v with several points per bucket and equal values/time stamps within and across series, two TSM files; D4 float v at off-grid times, every point first written with an old value into TSM and then overwritten (second TSM file / cache)); every dataset spans two 1h shard groups. " +
 			"quick: the same grammar with fewer alternatives per slot (proj {v,count,mean,max,first,v+w} × 3 time × 2 tag × 2 field × gb {none,time(30m,10m),time(20m)+h} × fill {absent,previous,linear} × 2 order × limit {none,(1,1)} × slimit {none,(1,1)} = 3 264 statements) × 5 datasets D0–D4. " +
 			"WHERE-tree family (in addition): the <tag>/<field> slots are replaced by a condition TREE: EVERY tree of depth ≤ 2 over the atom alphabet {h = 'a', h != 'a', h =~ /^[ac]$/, v > 2, v <= 2, v = 2} × {AND, OR} (6 + 72 + 12 096 = 12 174 trees: all pure-tag, pure-field and mixed conditions, a tag predicate ORed/ANDed with a field predicate in both operand orders, and such an OR/AND nested under AND and under OR on either side), ANDed with the time range of its frame, on dataset D5 (four float series around the constant 2: h=a has values below, equal to and above 2 and a w-only point, every value of h=b is > 2, every value of h=c is ≤ 2, h=d mixed; equal time stamps across series; two shards; TSM + cache). The reference evaluates the tree per point from the point's tag and its v value (absent v ⇒ every comparison false). " +
-				"quick frames: SELECT v without time bound × all 12 174 trees; count(v) GROUP BY h in [0m,120m), SELECT v,w GROUP BY h in [15m,80m] printed with minimal parentheses, SELECT v ORDER BY time DESC LIMIT 2 OFFSET 1 × the 78 trees of depth ≤ 1 (12 408 statements). thorough frames: those four plus max(v) GROUP BY time(20m),h fill(none) and mean(v) GROUP BY time(30m,10m) fill(previous) in (20m,70m), each × all 12 174 trees (73 044 statements), on D5, D1 and D2. " +
-				"Oracle: reference evaluator written from the InfluxQL documentation (see file header). non-trivial = statements for which the reference expects ≥ 1 row (distinct by construction); coverage.extra counts the WHERE-tree cases per tree class (tag-only, field-only, mixed-and, or-tag-field, or-mixed) and how many of them expect rows.",
+			"quick frames: SELECT v without time bound × all 12 174 trees; count(v) GROUP BY h in [0m,120m), SELECT v,w GROUP BY h in [15m,80m] printed with minimal parentheses, SELECT v ORDER BY time DESC LIMIT 2 OFFSET 1 × the 78 trees of depth ≤ 1 (12 408 statements). thorough frames: those four plus max(v) GROUP BY time(20m),h fill(none) and mean(v) GROUP BY time(30m,10m) fill(previous) in (20m,70m), each × all 12 174 trees (73 044 statements), on D5, D1 and D2. " +
+			"Oracle: reference evaluator written from the InfluxQL documentation (see file header). non-trivial = statements for which the reference expects ≥ 1 row (distinct by construction); coverage.extra counts the WHERE-tree cases per tree class (tag-only, field-only, mixed-and, or-tag-field, or-mixed) and how many of them expect rows.",
 		Assumptions: []string{
 			"documentation silent ⇒ accepted: order of equal-time rows in a merged raw result (and which of them LIMIT/OFFSET keeps); which equal-time point first()/last() reports; which equal-valued point's time min()/max() report without GROUP BY time; fill(previous) under ORDER BY time DESC may take the chronologically previous or the previously emitted (= later) interval; fill(linear) on integer columns may round either way; series order under ORDER BY time DESC (ascending or descending tags); SLIMIT/SOFFSET may count all series matching the tag predicate, those with rows before LIMIT/OFFSET, or those with rows after it",
 			"documented and demanded: count() reports 0 (not null) for empty intervals unless a fill option replaces it; an aggregate without GROUP BY time is stamped with the lower time bound (epoch 0 if none), a selector with its point's time; GROUP BY time buckets are aligned to epoch + offset and cover the whole WHERE range (first bucket may start before the lower bound); fill applies only to series that have ≥ 1 point in range; LIMIT/OFFSET apply per series after fill and ordering; result value types: count integer, mean float, others the field's type; raw projection with GROUP BY time is rejected",
